@@ -65,6 +65,55 @@ CLAIMED["C11"] = dict(
 CLAIMED["C12"] = dict(
     text="Observation = documented view of the state: proved per modelled environment, compared field by field on every transition.",
     ref="DESIGN.md §5 C12", tech="Coq proof + field-wise correspondence of observations", note=_ENV_NOTE)
+
+CLAIMED["C02"] = dict(
+    cat="translation_validation",
+    text="A Gallina step is a function, so purity and vmap=map / scan=fold hold by construction in the model and would be vacuous theorems; what the "
+         "property is about (hidden Python state, argument mutation, divergence between op-by-op and traced execution) lives in the runtime. "
+         "Decided by translation validation: the jitted reference result per (state, action) — the mode every extracted Coq model is compared "
+         "with — against eager, repeated, after unrelated calls, on a fresh instance, under vmap B=1/2/7 and scan L=1/5/T, for all 23 environments; "
+         "arguments snapshotted before / compared after; traced programs have no effects or callbacks.",
+    ref="DESIGN.md §5 C02", tech="translation validation: 7 execution modes against the jitted reference tied to the Coq models",
+    note=TB + " Float leaves compared within 1e-5 relative (XLA may fuse differently per program), integer/bool leaves exactly. Runtime behaviour no model can exhibit (tracer leaks, XLA miscompilation) is outside any theorem.")
+CLAIMED["C07"] = dict(
+    text="Per grid/game environment: a Physical invariant proved at reset and preserved by EVERY in-spec action (legal or not), conserved quantities "
+         "as theorems (2048 tile sum, Minesweeper mine set, Snake chain, Cleaner monotone cells, Tetris cell count ...); the verified Physical_b "
+         "checkers are evaluated on the implementation's own states under random and mask-violating play.",
+    ref="DESIGN.md §5 C07", tech="Coq invariant proof over all actions + verified checker on implementation states", note=_ENV_NOTE)
+CLAIMED["C13"] = dict(
+    text="Theorems for EVERY environment (the wrapper model is parametric in state/observation/action types, reset, step, state.key): non-LAST steps "
+         "are relayed unchanged; a LAST step returns reset(left half of split(terminal state.key)) with the terminal step's type/reward/discount/extras; "
+         "next_obs holds the true successor observation of every step; successive reset keys are pairwise distinct under the key discipline. Tied to "
+         "wrappers.py by running the REAL wrapper on all 23 environments against the extracted model instantiated with tables of the native "
+         "environment's behaviour (decoy keys included).",
+    ref="DESIGN.md §5 C13", tech="Coq proof generic in the environment + table-oracle correspondence of the real wrapper")
+CLAIMED["C14"] = dict(
+    text="Theorems generic in the environment: VmapWrapper is pointwise the unwrapped environment; VmapAutoResetWrapper = VmapWrapper(AutoResetWrapper) "
+         "for every batch and every subset of episodes ending together; both render element 0. jax.vmap/lax.map = map is the modelled semantics, tied "
+         "by running both real wrappers and per-instance execution on identical desynchronised batches (none/some/all ending) on all 23 environments "
+         "and by the extracted batch model over native tables.",
+    ref="DESIGN.md §5 C14", tech="Coq proof generic in the environment + differential/table-oracle correspondence")
+CLAIMED["C15"] = dict(
+    text="Adapters modelled as a state machine {key; state} over Seed/Reset/Reset(seed)/Step: gym relay = native run under the documented key schedule, "
+         "terminated = zero discount, truncated = LAST, re-seeding reproduces the episode, dm_env first step has no reward/discount, MultiToSingle "
+         "changes only reward/discount (all proved generically); valid => member of the converted gym space / dm spec and gym samples valid (C16 "
+         "theorems). Tied by driving the real adapters with op histories on all environments against the extracted model over native tables.",
+    ref="DESIGN.md §5 C15", tech="Coq proof of the adapter state machine + table-oracle correspondence; gymnasium/dm_env are modelled, not verified")
+CLAIMED["C17"] = dict(
+    text="RubiksCube: move tables are TRANSLATED from the source on every run (Gen/RubikTables.v); for every cube size and depth every move is a "
+         "permutation, cw/acw cancel, half = two quarters, four quarters = identity, is_solved exact, flatten/unflatten inverse, every scrambled or "
+         "played cube solvable; equality with the physical layer rotation is proved by kernel computation for n in 2..7. SlidingTile: for every n, "
+         "moves are blank swaps or identity, tiles conserved, opposite moves cancel, solved test exact, every reset/played state solvable. Both tied "
+         "by correspondence (entire 2x2 / 3x3 sliding state spaces in the thorough tier; all moves and move pairs of cubes 2..7).",
+    ref="DESIGN.md §5 C17", tech="Coq proof for all sizes over source-translated tables + finite kernel computation for the geometric part + correspondence")
+CLAIMED["C18"] = dict(
+    text="Theorems over all id strings (ASCII alphabet) and all register/make histories: parse/format round trip, soundness of parse, rejection of "
+         "malformed and version-less ids, duplicate registration refused after any history, registry monotone, make = registered entry with kwargs "
+         "overridden only by the caller's, unknown id lists the registry. The shipped registry and the regex pattern are dumped by value on every run "
+         "and re-checked by the kernel. Tied by differential runs of parse/register/make on a swapped-in fresh registry and by instantiating every "
+         "shipped id twice (equal specs and behaviour).",
+    ref="DESIGN.md §5 C18", tech="Coq proof + kernel re-check of the dumped shipped registry + extracted-model correspondence",
+    note=TB + " Python re/int/dict are modelled; constructors are run, not modelled; Sokoban-v0 needs its dataset (absent offline: recorded, not alarmed).")
 PENDING_REASON = "check under construction in this round (machinery for it is not committed yet)"
 
 
